@@ -57,7 +57,7 @@ def make_certs(pid):
     return d
 
 
-VEC_FIELDS = ("via", "wrapper", "scheme", "scase", "host", "port", "cert", "calpn", "salpn", "fault", "prev", "hist")
+VEC_FIELDS = ("via", "wrapper", "scheme", "scase", "host", "port", "cert", "calpn", "salpn", "fault", "prev", "hist", "wiring")
 
 
 def vkey(v):
@@ -110,6 +110,11 @@ def _violation_key(rec, clause):
         what = {"NoClear": "cleartext", "OtherNotWrapped": "wrapped", "PoolClass": "shared", "Established": "established"}[clause]
         how = ("pooled-reuse" if v["hist"] == "idle" else "pooled-inflight") if o["sharedPrev"] else "own-connection"
         return "%s:%s:prev=%s;scheme=%s%s" % (what, how, v["prev"], v["scheme"], "" if v["scase"] == "lower" else ";case=upper")
+    if v["wiring"] not in ("direct", "transport-then-tls") and clause in ("NoClear", "OtherNotWrapped", "Established", "FailIsError"):
+        # WIRING vectors: the class is (what went wrong, the builder call order, scheme)
+        what = {"NoClear": "cleartext", "OtherNotWrapped": "wrapped", "Established": "established", "FailIsError": "fallback"}[clause]
+        return "%s:wiring=%s;wrapper=%s;scheme=%s%s" % (what, v["wiring"], v["wrapper"], v["scheme"],
+                                                        "" if v["scase"] == "lower" else ";case=upper")
     if clause == "Outcome":
         if o["result"] == "panic" or o.get("taskPanics", 0):
             loc = o.get("panicLoc", "?").rsplit(":", 1)[0]
@@ -141,6 +146,8 @@ def _describe(rec, clauses):
         hist = " after %s://%s/ on the same pooled client (%s; that request travelled over %s; same connection: %s)" % (
             v["prev"], sp.get("authority", "?"), "completed, connection idle" if v["hist"] == "idle" else "still in flight, HTTP/2",
             o.get("prevCarrier"), o.get("sharedPrev"))
+    if v["wiring"] not in ("direct", "transport-then-tls"):
+        hist += " [client::Builder call order: %s]" % v["wiring"]
     return ("clauses %s fail: %s %s via %s%s (wrapper=%s cert=%s alpn=%s/%s fault=%s): %s; peer saw first=%s raw-marker=%s "
             "carrier=%s sni=%s verified=%s handshake=%s" % (
                 "+".join(clauses), "GET", sp["uri"], v["via"], hist, v["wrapper"], v["cert"], v["calpn"], v["salpn"], v["fault"],
@@ -174,6 +181,10 @@ def run(pid, tier, seed, t0):
         km = vlib.tlc("MC_TlsRoute", "TlsRoute_keymerge.cfg", pid, workers=1, timeout=600)
         if km.violated != "KeyMergeHolds":
             raise vlib.ToolError("TlsRoute_keymerge: TLC did not refute the merged pool key")
+        # a builder whose reconstructing setters forget the TLS configuration must be refuted by TLC
+        sd = vlib.tlc("MC_TlsRoute", "TlsRoute_setterdrops.cfg", pid, workers=1, timeout=600)
+        if sd.violated != "SetterDropsHolds":
+            raise vlib.ToolError("TlsRoute_setterdrops: TLC did not refute the TLS-dropping builder")
     # 3. vectors
     vecs = _vectors(pid)
     vpath = os.path.join(d, "vectors.json")
@@ -183,9 +194,12 @@ def run(pid, tier, seed, t0):
     rpath = os.path.join(d, "records.ndjson")
     k = SPELLINGS[tier]
     out = vlib.run_harness("tlsroute", ["run", vpath, certs, rpath, seed, k], timeout=1500)
-    nrec = json.loads(out.strip().splitlines()[-1])["records"]
+    hsum = json.loads(out.strip().splitlines()[-1])
+    nrec = hsum["records"]
+    if hsum.get("skippedDefaultBuilder"):
+        vlib.log("[C12] %d default-builder vectors skipped: no platform root certificates on this machine" % hsum["skippedDefaultBuilder"])
     recs = vlib.read_ndjson(rpath)
-    if nrec != len(recs) or nrec < len(vecs):
+    if nrec != len(recs) or nrec < len(vecs) - 2 * hsum.get("skippedDefaultBuilder", 0):
         raise vlib.ToolError("harness executed %d records for %d vectors" % (nrec, len(vecs)))
     # 5. the monitor
     o = _obs(pid, rpath)
@@ -242,10 +256,14 @@ def run(pid, tier, seed, t0):
                 "client ALPN x server ALPN x handshake fault (certificate/ALPN/fault pinned where no handshake is attempted), plus "
                 "the HISTORY vectors: on one pooled Client with a TLS configuration a previous request with scheme "
                 "http/ws/https/wss to the same authority has completed (HTTP/1.1 connection idle in the pool) or is still in "
-                "flight (HTTP/2), then the request under test; "
+                "flight (HTTP/2), then the request under test; plus the WIRING vectors: ten call orders on client::Builder (TLS state "
+                "set before / after with_transport, with_protocol, with_tcp, redirect setters, with_body+layer, mutating setters, "
+                "the default builder, reset, accessor) x wrapper x scheme x case x host x port against a cooperative peer; "
                 "%d seeded spelling(s) each, executed on the real TlsTransport / Client; non-trivial = distinct concrete "
                 "(vector, URI, Host header, wiring, truncation point) with a TLS configuration and an https/wss scheme" % k,
         "exhaustive": len(drift_only) == 0 and not bad,
+        "wiring_vectors": dict(collections.Counter(x["wiring"] for x in vecs)),
+        "default_builder_vectors_skipped": hsum.get("skippedDefaultBuilder", 0),
         "vectors": len(vecs), "history_vectors": sum(1 for x in vecs if x["prev"] != "none"),
         "history_records_sharing_the_previous_connection": sum(1 for r in recs if r["obs"].get("sharedPrev")), "spellings": k,
         "tlc_coverage": {a: {"distinct": c[0], "taken": c[1]} for a, c in sorted(cov.items())},
